@@ -358,6 +358,45 @@ LEXERS = [
 ]
 
 
+def naive(t):
+    """Print without any parentheses (concatenation = juxtaposition, postfix operators, '|')."""
+    if t[0] == "leaf":
+        return t[1]
+    if t[0] in UNARY:
+        return naive(t[1]) + UNARY[t[0]]
+    return naive(t[1]) + ("" if t[0] == "cat" else "|") + naive(t[2])
+
+
+def colliding_pairs(max_size):
+    """Pairs of different ASTs over {a, b} whose unparenthesised prints coincide, e.g. (ab)* and ab*:
+    aimed at normalisation code that identifies sub-expressions by their printed form."""
+    groups = {}
+    for size in range(1, max_size + 1):
+        for t in asts(size, CORE_LEAVES[:2]):
+            groups.setdefault(naive(t), []).append((size, t))
+    out = []
+    for k in sorted(groups):
+        for (n1, r1), (n2, r2) in itertools.combinations(groups[k], 2):
+            out.append((max(n1, n2), r1, r2))
+    return out
+
+
+def collide_cases(ctx):
+    rng = ctx.rng
+    pairs = colliding_pairs(5)
+    small = [p for p in pairs if p[0] <= 4]
+    big = [p for p in pairs if p[0] == 5]
+    if ctx.tier == "thorough":
+        six = [p for p in colliding_pairs(6) if p[0] == 6]
+        chosen = small + big + rng.sample(six, 300)
+    else:
+        chosen = small + rng.sample(big, 60)
+    a = leaf("a")
+    for _, r1, r2 in chosen:
+        for t in (("alt", r1, r2), ("alt", r2, r1), ("star", ("alt", r1, r2)), ("cat", ("alt", r1, r2), a)):
+            yield ("collide", t, show(t), codes("ab"), 5)
+
+
 def accept_cases(ctx):
     """(family, tree-or-None, text, alphabet codes, n)"""
     rng = ctx.rng
@@ -369,7 +408,7 @@ def accept_cases(ctx):
         for t in asts(size, CORE_LEAVES):
             cases.append(("core", t, show(t), codes("ab"), n))
     seen = {c[2] for c in cases}
-    for size, count in ((6, 1000), (7, 250), (8, 100)) if thorough else ((5, 300), (6, 40)):
+    for size, count in ((6, 1000), (7, 250), (8, 100), (9, 60)) if thorough else ((5, 200), (6, 40), (7, 30), (8, 30), (9, 30)):
         got = 0
         while got < count:
             t = random_ast(rng, size, CORE_LEAVES)
@@ -387,6 +426,7 @@ def accept_cases(ctx):
             cases.append(("class", t, show(t), codes("abc*"), 3))
     for t, sigma, k in FIXED:
         cases.append(("fixed", t, show(t), codes(sigma), k))
+    cases.extend(collide_cases(ctx))
     return cases
 
 
@@ -399,12 +439,14 @@ class Engine:
                  "AST of size<=%s over {a,b,.} and every string over {a,b} of length<=%s; Parse(Show(r))=r for every AST of "
                  "size<=%d over 6 leaves (incl. escapes, a class). "
                  "E: every AST of size<=%d over {a,b,.} (+ seeded samples up to size %d, + size<=3 over class/escape leaves, "
-                 "+ %d fixed expressions) printed with minimal parentheses, compiled by ppci regex.compile (kind text) and "
+                 "+ %d fixed expressions, + the directed family r1|r2, r2|r1, (r1|r2)*, (r1|r2)a for pairs of different ASTs "
+                 "over {a,b} whose unparenthesised prints coincide, e.g. (ab)* / ab*: all pairs of size<=4 (thorough <=5) "
+                 "and a seeded sample of larger ones) printed with minimal parentheses, compiled by ppci regex.compile (kind text) and "
                  "built through the combinator API (kind ast); the set of strings of length<=n accepted by walking the "
                  "returned transition table is compared by TLC with {s : Matches(ParseRegex(text).ast, s)}; regex.scan / "
                  "make_scanner on texts built from TLC-confirmed accepted strings (and perturbed ones) against Tokens "
                  "(longest match). distinct = distinct (kind, expression[, text])"
-                 % (("4 (5 for length<=3)", 5, 6, 5, 8, len(FIXED)) if thorough else (4, 3, 5, 4, 6, len(FIXED))))
+                 % (("4 (5 for length<=3)", 5, 6, 5, 9, len(FIXED)) if thorough else (4, 3, 5, 4, 9, len(FIXED))))
         ctx.assume("kind ast: the 12-line builder engines/c31.py:build maps AST nodes to ppci combinators (x+ is x + Kleene(x))")
         ctx.assume("a compile that exceeds a budget of Python function calls (200 000 up to 6 AST nodes, 1 000 000 for 7, "
                    "2 000 000 otherwise) is recorded as non-terminating (exc=Budget); terminating compiles need < 1/9 of it")
@@ -449,7 +491,7 @@ class Engine:
         recs = []
         for fam, t, text, sigma, n in accept_cases(ctx):
             tag = shape(t)
-            budget = call_budget(8 if fam == "fixed" else nodes(t))
+            budget = MAX_BUDGET if fam in ("fixed", "collide") else call_budget(nodes(t))
             out, _ = observe_accept(text, sigma, n, budget)
             recs.append({"kind": "text", "must": True, "re": codes(text), "sigma": sigma, "n": n, "out": out,
                          "key": "C31:text:shape=%s:%s:re=%s" % (tag, outcome_tag(out), text), "retext": text, "fam": fam,
